@@ -120,7 +120,7 @@ def parallel_oracle(module, records, chunk, jobs=4):
 
 
 class Variant:
-    __slots__ = ("entry", "an", "names", "role", "kind", "to", "variant", "scale", "sS0", "sR0", "sS", "sR", "outcome", "res", "exc", "msg", "base", "mag", "atoms")
+    __slots__ = ("entry", "an", "names", "role", "kind", "to", "variant", "scale", "sS0", "sR0", "sS", "sR", "outcome", "res", "exc", "msg", "base", "mag", "atoms", "stored")
 
 
 def main(tier, seed):
@@ -226,6 +226,8 @@ def main(tier, seed):
                     run.add("variants_not_constructible")
                     continue
                 v.mag = magnitude(isos[0])
+                v.stored = {"loading": isos[0].data_raw[isos[0].loading_key].to_numpy(dtype=float).copy(),
+                            "pressure": isos[0].data_raw[isos[0].pressure_key].to_numpy(dtype=float).copy()}
                 v.outcome, v.res, v.msg = run_entry(entry, isos)
                 variants.append(v)
             dbg(f"{entry} {names}: {len(plan)} variants, t={time.time() - t_mc:.1f}s")
@@ -289,6 +291,33 @@ def main(tier, seed):
     verdicts = parallel_oracle("InvarianceTrace", trecs, 400)
     run.set(wall_breakdown={"tlc_model_checking_and_cover": round(t_mc - t_start, 1), "real_runs": round(t_runs - t_mc, 1),
                             "plan_oracle": round(t_oracle - t_runs, 1), "trace_validation": round(time.time() - t_oracle, 1)})
+
+    # ---- is the transcription still the code?  every array that reached the numeric core must consist of the sample's
+    # stored numbers times the monomial the access-plan model computes for that read (float64, 1e-9)
+    plan_checked = plan_drift = 0
+    for v, ans in zip(variants, answers):
+        if v.outcome != "ok":
+            continue
+        for dl in ans["deliv"]:
+            core = v.res.get("core." + dl["slot"])
+            if core is None or v.an in ("enthalpy_sorption_whittaker",):
+                continue
+            f = v.atoms.value({a: e for a, e in dl["vec"]})
+            col = v.stored[dl["col"]]
+            if v.variant == "scale" and dl["col"] == "loading" and v.role in ("S", "A"):
+                pass        # (stored numbers are the scaled ones already)
+            core = numpy.atleast_1d(numpy.asarray(core, dtype=float)).ravel()
+            core = core[numpy.isfinite(core) & (core != 0)]      # (initial_henry_slope prepends the origin)
+            plan_checked += 1
+            ref = numpy.sort(col[numpy.isfinite(col)] * f)
+            pos = numpy.clip(numpy.searchsorted(ref, core), 1, len(ref) - 1)
+            near = numpy.minimum(numpy.abs(ref[pos] - core), numpy.abs(ref[pos - 1] - core))
+            if len(ref) == 0 or numpy.any(near > 1e-9 * numpy.maximum(numpy.abs(core), 1e-300)):
+                plan_drift += 1
+                if plan_drift <= 5:
+                    run.note(f"MODEL-DRIFT {v.entry} {v.names} sample {lab(v.sS)}: core.{dl['slot']} is not the stored {dl['col']} column times the "
+                             f"monomial {dl['vec']} the access-plan transcription (spec/AccessPlan.tla Plan) computes")
+    run.set(plan_reads_checked_against_core=plan_checked, plan_reads_off_the_transcription=plan_drift)
 
     drift = 0
     for v, ans, q, vd in zip(variants, answers, trecs, verdicts):
